@@ -161,8 +161,8 @@ Lemma ksel_run_cop n L cs : ksel c_name n (run apply_cop L cs) = run (cstep n) L
 Proof. apply run_proj. intros; apply ksel_apply_cop. Qed.
 Lemma ksel_run_kop n L ks : ksel k_name n (run apply_kop L ks) = run (kstep n) L (ksel k_name n ks).
 Proof. apply run_proj. intros; apply ksel_apply_kop. Qed.
-Lemma ksel_apply_ops n L S : ksel t_name n (apply_ops L S) = run (tstep n) L (ksel t_name n S).
-Proof. unfold apply_ops. apply (run_proj apply_op (tstep n) (ksel t_name n)). intros; apply ksel_apply_op. Qed.
+Lemma ksel_apply_ops_direct n L S : ksel t_name n (apply_ops_direct L S) = run (tstep n) L (ksel t_name n S).
+Proof. unfold apply_ops_direct. apply (run_proj apply_op (tstep n) (ksel t_name n)). intros; apply ksel_apply_op. Qed.
 
 Lemma cols_run_top L t : t_cols (run apply_top L t) = run apply_cop L (t_cols t).
 Proof. apply (run_proj apply_top apply_cop t_cols). reflexivity. Qed.
@@ -814,7 +814,7 @@ Proof. revert s; induction L as [|o L IH]; intros s H.
 Lemma reflect_table_name t : t_name (reflect_table t) = t_name t. Proof. reflexivity. Qed.
 
 Lemma tables_after g A B n : NoDup (keys t_name A) -> NoDup (keys t_name B) ->
-  ksel t_name n (apply_ops (compare_tables g (reflect_sqlite A) B) A) =
+  ksel t_name n (apply_ops_direct (compare_tables g (reflect_sqlite A) B) A) =
   match kfind t_name n B with
   | Some m => match kfind t_name n A with
               | Some c => [run apply_top (existing_table g (reflect_table c) m) c]
@@ -822,7 +822,7 @@ Lemma tables_after g A B n : NoDup (keys t_name A) -> NoDup (keys t_name B) ->
               end
   | None => []
   end.
-Proof. intros HA HB. rewrite ksel_apply_ops, (ksel_nodup t_name n _ HA). unfold compare_tables, reflect_sqlite.
+Proof. intros HA HB. rewrite ksel_apply_ops_direct, (ksel_nodup t_name n _ HA). unfold compare_tables, reflect_sqlite.
   rewrite (keys_map t_name reflect_table reflect_table_name), flat_map_map. rewrite !run_app.
   rewrite (run_seg (tstep n) t_name _ n B); auto.
   2:{ intros x _ Hx o Ho s'. destruct (kfind t_name (t_name x) (map reflect_table A)); [|inversion Ho].
@@ -883,7 +883,7 @@ Proof. intros H Hd Hu. pose proof (no_unnamed_uq_nil _ Hu) as Hun. apply wf_sche
 
 Theorem diff_converge g A B : wf_schemab A = true -> wf_schemab B = true -> defaults_ok B = true -> fk_names_ok A B = true ->
   no_unnamed_uq B = true ->
-  diff g (reflect_sqlite (apply_ops (diff g (reflect_sqlite A) B) A)) B = [].
+  diff g (reflect_sqlite (apply_ops_direct (diff g (reflect_sqlite A) B) A)) B = [].
 Proof. intros HA HB Hd Hnm Hu. pose proof (no_unnamed_uq_nil _ Hu) as Hun. pose proof (wf_schema_ndf _ HA) as HAf. pose proof (wf_schema_ndf _ HB) as HBf. apply wf_schema_nd in HA. apply wf_schema_nd in HB. destruct HA as [HAn HAt], HB as [HBn HBt].
   pose proof (defaults_ok_dok _ Hd) as Hok. unfold diff. apply compare_tables_nil.
   - intros m Hm. unfold reflect_sqlite at 1. rewrite (kfind_map t_name reflect_table reflect_table_name), kfind_hd, tables_after; auto.
@@ -894,6 +894,61 @@ Proof. intros HA HB Hd Hnm Hu. pose proof (no_unnamed_uq_nil _ Hu) as Hun. pose 
       apply kfind_some in Ec. apply existing_converge; auto; [apply HAt|apply HAf]; tauto.
     + apply created_quiet; auto.
   - intros c Hc. unfold reflect_sqlite at 1 in Hc. apply in_map_iff in Hc. destruct Hc as [c0 [<- Hc0]]. cbn [reflect_table t_name].
-    assert (Hs: In c0 (ksel t_name (t_name c0) (apply_ops (compare_tables g (reflect_sqlite A) B) A))) by (apply ksel_In; auto).
+    assert (Hs: In c0 (ksel t_name (t_name c0) (apply_ops_direct (compare_tables g (reflect_sqlite A) B) A))) by (apply ksel_In; auto).
     rewrite tables_after in Hs; auto. destruct (kfind t_name (t_name c0) B) as [m|] eqn:Em; [|inversion Hs].
     apply kfind_some in Em. destruct Em as [E1 E2]. unfold keys. rewrite <- E2. apply in_map; auto. Qed.
+
+(* ================================================================ the rendered upgrade *)
+(* for server defaults of the covered class the printed text says what the operation objects say *)
+Lemma forallb_last {A} (p:A->bool) l d : l <> [] -> forallb p l = true -> p (last l d) = true.
+Proof. induction l as [|a l IH]; [congruence|]. intros _ H. simpl in H. apply andb_true_iff in H. destruct H as [Ha Hl].
+  destruct l as [|b l']; auto. apply IH; auto. congruence. Qed.
+Lemma strip_edge_quotes_plain s : plain s = true -> strip_edge_quotes s = s.
+Proof. intros H. destruct (plain_hd _ H) as [Hh Hne]. destruct s as [|x r]; [congruence|]. simpl in Hh.
+  assert (Hf: forallb plain_char (x :: r) = true) by exact H.
+  unfold strip_edge_quotes. destruct (plain_char_neq _ Hh) as [Hq _]. unfold ch_quote in Hq. rewrite Hq.
+  pose proof (forallb_last plain_char (x :: r) 0%N Hne Hf) as Hl. destruct (plain_char_neq _ Hl) as [Hq2 _]. unfold ch_quote in Hq2.
+  rewrite Hq2. reflexivity. Qed.
+Lemma render_default_ok d : dflt_ok d = true -> render_default d = d.
+Proof. destruct d; simpl; auto. intros H. rewrite strip_edge_quotes_plain; auto. Qed.
+Lemma render_col_ok c : dok_col c -> render_col c = c.
+Proof. unfold dok_col, render_col. destruct c as [n t nl pk d ns]. simpl. destruct d as [d|]; simpl; auto. intros H. rewrite render_default_ok; auto. Qed.
+
+Lemma cons_op_render tn o : cons_op tn o -> render_op o = o. Proof. destruct o; simpl; intros H; try reflexivity; exfalso; exact H. Qed.
+Lemma fk_op_render tn o : fk_op tn o -> render_op o = o. Proof. destruct o; simpl; intros H; try reflexivity; exfalso; exact H. Qed.
+
+Lemma pre_render g tn c m o : dok_table m -> In o (compare_columns_pre g tn c m) -> render_op o = o.
+Proof. intros Hok. unfold compare_columns_pre. rewrite in_app_iff, !in_flat_map. intros [[x [Hx H]]|[x [Hx H]]].
+  - destruct (memN _ _); simpl in H; [tauto|]. destruct H as [<-|[]]. simpl. rewrite render_col_ok; auto.
+  - destruct (kfind _ _ _) as [cc|]; [|inversion H]. unfold alter_column in H.
+    destruct (compare_server_default_col g cc x) as [d|] eqn:Ed.
+    + destruct (csd_some _ _ _ _ Ed) as [-> _].
+      assert (Hd: option_map render_default (c_default x) = c_default x).
+      { specialize (Hok x Hx). unfold dok_col in Hok. destruct (c_default x); simpl; auto. rewrite render_default_ok; auto. }
+      destruct (compare_nullable cc x); destruct (compare_type_col g cc x); simpl in H; destruct H as [<-|[]]; simpl; rewrite Hd; reflexivity.
+    + destruct (compare_nullable cc x); destruct (compare_type_col g cc x); simpl in H; try tauto; destruct H as [<-|[]]; reflexivity. Qed.
+Lemma post_render tn c m o : In o (compare_columns_post tn c m) -> render_op o = o.
+Proof. unfold compare_columns_post. rewrite in_flat_map. intros [x [_ H]]. destruct (memN _ _); simpl in H; [tauto|].
+  destruct H as [<-|[]]. reflexivity. Qed.
+
+Lemma render_created m : dok_table m -> render_op (OpCreateTable (create_table_of m)) = OpCreateTable (create_table_of m).
+Proof. intros Hok. unfold create_table_of. simpl. f_equal. f_equal. rewrite <- (map_id (t_cols m)) at 2. apply map_ext_in.
+  intros c Hc. apply render_col_ok; auto. Qed.
+
+Lemma render_diff g conn B : (forall t, In t B -> dok_table t) -> map render_op (compare_tables g conn B) = compare_tables g conn B.
+Proof. intros Hok. rewrite <- (map_id (compare_tables g conn B)) at 2. apply map_ext_in. intros o Ho.
+  unfold compare_tables in Ho. rewrite !in_app_iff, !in_flat_map in Ho. destruct Ho as [[m [Hm H]]|[[c [Hc H]]|[m [Hm H]]]].
+  - destruct (memN _ _); [inversion H|]. destruct H as [<-|H]; [apply render_created; auto|]. eapply cons_op_render, ciu_ops; eauto.
+  - destruct (memN _ _); [inversion H|]. unfold removed_table in H. apply in_app_iff in H. destruct H as [H|[<-|[]]]; auto.
+    eapply cons_op_render, ciu_ops; eauto.
+  - destruct (kfind _ _ _) as [c|]; [|inversion H]. unfold existing_table in H. rewrite !in_app_iff in H. destruct H as [H|[H|[H|H]]].
+    + eapply pre_render; eauto.
+    + eapply cons_op_render, ciu_ops; eauto.
+    + eapply fk_op_render, cfk_ops; eauto.
+    + eapply post_render; eauto. Qed.
+
+Theorem diff_converge_rendered g A B : wf_schemab A = true -> wf_schemab B = true -> defaults_ok B = true -> fk_names_ok A B = true ->
+  no_unnamed_uq B = true ->
+  diff g (reflect_sqlite (apply_ops (diff g (reflect_sqlite A) B) A)) B = [].
+Proof. intros HA HB Hd Hn Hu. unfold apply_ops. unfold diff at 2. rewrite render_diff; [|apply defaults_ok_dok; auto].
+  apply diff_converge; auto. Qed.
